@@ -22,14 +22,15 @@ Record obs := mkObs {
   ob_latch : bool; ob_staged : N; ob_last : option N   (* internal; used by the model comparison only *)
 }.
 
-Definition obs0 : obs := mkObs [] None false false None None None [] None false 0 None.
-
 (* thresholds in whole seconds *)
 Definition sec : N := 1000000000.
 Definition t_rekey : N := RekeyAfterTime / sec.                                   (* 120 *)
 Definition t_reject : N := RejectAfterTime / sec.                                 (* 180 *)
 Definition t_rekey_recv : N := (RejectAfterTime - KeepaliveTimeout - RekeyTimeout) / sec.   (* 165 *)
 Definition t_spacing : N := RekeyTimeout / sec.                                   (* 5 *)
+
+(* what is observed of a freshly started peer (lastSentHandshake lies RekeyTimeout + 1 s in the past) *)
+Definition obs0 : obs := mkObs [] None false false None None None [] None false 0 (Some (t_spacing + 1)).
 
 Definition memN (x : N) (l : list N) : bool := existsb (N.eqb x) l.
 Fixpoint nodupb (l : list N) : bool :=
